@@ -135,7 +135,7 @@ def run_property(ctx, combos, classify_name, max_paths, describe_params):
             if a != b:
                 ctx.inconclusive.append({'why': 'stub fidelity mismatch', 'combo': res['combo'], 'tree': tree, 'stub': a, 'real': b})
         for tree, msgs, key in res['viol']:
-            if len(ctx.violations) >= 12:
+            if len(ctx.violations) >= 12 or len(ctx.inconclusive) >= 12:
                 break
             if key is not None:
                 if key in live:
